@@ -81,7 +81,7 @@ MAX_QUERIES = 250
 
 
 def n_cases(tier):
-    return 200 if tier == "quick" else 2000
+    return 1200 if tier == "quick" else 9600
 
 
 # --------------------------------------------------------------------------------------
@@ -903,8 +903,38 @@ class Runner:
                 if fp(r) != f1:
                     self.fail(m, "repeat-end", f"repeating {_brief(spec)} at the end of the history returned "
                               f"{_short(fp(r))}, first time {_short(f1)}")
+            self.reused_buffer()
         except Stop:
             pass
+
+    def reused_buffer(self):
+        """(g) ONE threshold array, refilled in place by the caller between two consecutive calls of the same query (a
+        sweep that reuses its buffer): the second answer must be the answer for the values the array holds NOW, i.e. what
+        an identical, freshly built object answers for a new array with those values.  Nothing else is called in between."""
+        inp = self.inp
+        vals = sorted(set(float(x) for x in self.mpos + self.mneg))
+        if not vals:
+            return
+        fresh = self.Scores(list(self.mpos), list(self.mneg), nb_easy_pos=inp["ep"], nb_easy_neg=inp["en"],
+                            score_class=inp["sc"], equal_class=inp["ec"])
+        first = [vals[0] - 1.0, vals[len(vals) // 2], vals[-1] + 1.0]
+        second = [vals[len(vals) // 3], vals[-1], vals[0]]
+        names = ["cm", "tpr", "fnr", "tnr", "fpr", "topr", "tonr", "tar", "far"]
+        k0 = (len(self.mpos) * 7 + len(self.mneg) * 3 + inp["ep"]) % len(names)
+        for name in (names[k0], names[(k0 + 4) % len(names)]):
+            buf = np.array(first, dtype=float)
+            r1 = self.call(getattr(self.s, name), buf)
+            buf[:] = second
+            r2 = self.call(getattr(self.s, name), buf)
+            want = self.call(getattr(fresh, name), np.array(second, dtype=float))
+            self.evals += 2
+            if r1[0] == "exc" or r2[0] == "exc" or want[0] == "exc":
+                continue
+            if fp(r2) != fp(want):
+                self.fail(name, "repeat", f"{name}(buf) after the caller refilled buf in place with {second} returned "
+                          f"{_short(fp(r2))}; an identical fresh object answers {_short(fp(want))} for these thresholds "
+                          f"(the previous call was {name}(buf) with buf = {first})")
+                return
 
 
 def _scores_token(sw):
